@@ -277,7 +277,9 @@ func ruleDynCalls(p *Program, r *Reporter) {
 							mod = true
 						}
 					}
-					if mod {
+					if names, _, all := tableRegistrations(p, arg); !mod && all {
+						r.OkNT(key, p.Pos(c.Pos()), fmt.Sprintf("an entry of a table of %d built-ins of the module that is never written after initialisation (their effects are covered by R-EFFECTS)", len(names)))
+					} else if mod {
 						r.Ok(key, p.Pos(c.Pos()), "built-in of the module (its effects are covered by R-EFFECTS)")
 					} else {
 						r.Fail(key, p.Pos(c.Pos()), "the constructor registers something that is not a function of the module")
@@ -349,6 +351,13 @@ func ruleDynCalls(p *Program, r *Reporter) {
 						r.Ok(key, p.Pos(ci.Pos()), "closure of the module")
 						continue
 					}
+				}
+				// a function handed back by a function of the module (the undo of
+				// an enter/leave pair): every value it returns in that place is a
+				// function literal of the module, or nil
+				if fns, ok := functionsHandedBack(cc.Value); ok {
+					r.OkNT(key, p.Pos(ci.Pos()), fmt.Sprintf("function value handed back by a function of the module: %d function literal(s) of the module", len(fns)))
+					continue
 				}
 				r.Fail(key, p.Pos(ci.Pos()), "call through a function value whose callees cannot be enumerated: the closed-world argument for confinement breaks here")
 			}
@@ -561,6 +570,15 @@ func ruleGlobals(p *Program, r *Reporter) {
 			r.OkNT(key, p.Pos(g.Pos()), fmt.Sprintf("never written after package initialisation (%d read(s))", len(gl.reads)))
 			continue
 		}
+		// an object that carries its own mutex (`type cache struct { lock
+		// sync.Mutex; entries map[…]… }`): fine when the variable is only used
+		// as the receiver of the type's methods, and those touch the other
+		// fields only while the receiver's mutex is held and do not let what
+		// the fields refer to get out
+		if why, ok := selfGuardedObject(p, g, fns); ok {
+			r.OkNT(key, p.Pos(g.Pos()), why)
+			continue
+		}
 		// every access under a held package-level mutex
 		bad := ""
 		accesses := append(append([]ssa.Instruction{}, gl.reads...), gl.writes...)
@@ -688,6 +706,14 @@ func storesThroughReceiver(fn *ssa.Function, seen map[*ssa.Function]bool) bool {
 
 // heldAt: forward must-analysis of "some package-level mutex is held" at ins.
 func heldAt(at ssa.Instruction, isMutex func(*ssa.Global) bool) bool {
+	return heldAtBy(at, func(v ssa.Value) bool {
+		g, ok := v.(*ssa.Global)
+		return ok && isMutex(g)
+	})
+}
+
+// heldAtBy: forward must-analysis of "a mutex for which isLock holds is held" at ins.
+func heldAtBy(at ssa.Instruction, isLock func(ssa.Value) bool) bool {
 	fn := at.Parent()
 	lockOp := func(ins ssa.Instruction) (lock, unlock bool) {
 		c, ok := ins.(*ssa.Call)
@@ -698,8 +724,7 @@ func heldAt(at ssa.Instruction, isMutex func(*ssa.Global) bool) bool {
 		if cal == nil || len(c.Call.Args) == 0 {
 			return
 		}
-		g, ok := c.Call.Args[0].(*ssa.Global)
-		if !ok || !isMutex(g) {
+		if !isLock(c.Call.Args[0]) {
 			return
 		}
 		switch cal.Name() {
@@ -1019,6 +1044,28 @@ func identityOnly(v ssa.Value, depth int) bool {
 				case *ssa.UnOp:
 					if y.Op != token.MUL || !identityOnly(y, depth+1) {
 						return false
+					}
+				case *ssa.MakeClosure:
+					// captured by a function literal (the undo that removes the
+					// key again): what the literal does with it counts
+					body, ok := y.Fn.(*ssa.Function)
+					if !ok {
+						return false
+					}
+					for i, b := range y.Bindings {
+						if b != ssa.Value(al) || i >= len(body.FreeVars) {
+							continue
+						}
+						fv := body.FreeVars[i]
+						if fv.Referrers() == nil {
+							continue
+						}
+						for _, r4 := range *fv.Referrers() {
+							ld, ok := r4.(*ssa.UnOp)
+							if !ok || ld.Op != token.MUL || !identityOnly(ld, depth+1) {
+								return false
+							}
+						}
 					}
 				case *ssa.DebugRef:
 				default:
@@ -1354,6 +1401,8 @@ func ruleMapOrder(p *Program, r *Reporter) {
 					r.OkNT(key, p.Pos(rs.Pos()), class+": "+detail)
 				case "sorted-not-total":
 					r.Fail(key, p.Pos(rs.Pos()), "the entries are collected and sorted, but the comparator is not a total order on them ("+detail+"): entries that compare equal come out in map-iteration order, which differs from run to run")
+				case "sorted-wrong-order":
+					r.Fail(key, p.Pos(rs.Pos()), "the entries are collected and sorted, but not in the order of their keys: "+detail)
 				default:
 					if exit := earlyExit(rs); exit != nil {
 						// a listed loop is independent per iteration only if it runs to exhaustion
@@ -1784,7 +1833,105 @@ func comparatorTotal(p *Program, info *types.Info, sliceArg ast.Expr, fl *ast.Fu
 			return "sorted-not-total", fmt.Sprintf("elements of type %s are ordered by %v; a total order needs %v", typeStr(elem), rl, need)
 		}
 	}
+	// the entries of a hash are in the order of their keys' printed forms (the
+	// documented order of iteration, keys() and the printed hash): the string
+	// comparison that decides compares the printed forms themselves, not a
+	// string put together from them ("1" < "10", but "1:INTEGER" > "10:INTEGER")
+	if typeStr(elem) == "object.HashPair" {
+		if why := notOrderedByPrintedForm(p, info, body, bodies); why != "" {
+			return "sorted-wrong-order", why
+		}
+	}
 	return "collected-then-sorted", fmt.Sprintf("comparator reads %v of each %s (identifies the element)", rl, typeStr(elem))
+}
+
+// notOrderedByPrintedForm: in the comparator (and the helpers of the module it
+// calls) every ordering of two strings compares Inspect() with Inspect() or
+// Type() with Type() of the two entries; "" when so.
+func notOrderedByPrintedForm(p *Program, info *types.Info, body ast.Node, helpers []ast.Node) string {
+	// local definitions: name → expression
+	defs := map[types.Object]ast.Expr{}
+	collect := func(n ast.Node) {
+		ast.Inspect(n, func(m ast.Node) bool {
+			if as, ok := m.(*ast.AssignStmt); ok && len(as.Lhs) == len(as.Rhs) {
+				for i, l := range as.Lhs {
+					if id, ok := l.(*ast.Ident); ok {
+						if o := info.Defs[id]; o != nil {
+							defs[o] = as.Rhs[i]
+						}
+					}
+				}
+			}
+			return true
+		})
+	}
+	collect(body)
+	var kind func(e ast.Expr, depth int) string
+	kind = func(e ast.Expr, depth int) string {
+		if depth > 6 {
+			return "derived"
+		}
+		switch x := ast.Unparen(e).(type) {
+		case *ast.Ident:
+			if o := info.Uses[x]; o != nil {
+				if d, ok := defs[o]; ok {
+					return kind(d, depth+1)
+				}
+			}
+			return "derived"
+		case *ast.CallExpr:
+			if tv, ok := info.Types[x.Fun]; ok && tv.IsType() && len(x.Args) == 1 {
+				return kind(x.Args[0], depth+1)
+			}
+			if sel, ok := x.Fun.(*ast.SelectorExpr); ok && len(x.Args) == 0 {
+				switch sel.Sel.Name {
+				case "Inspect":
+					return "printed"
+				case "Type":
+					return "type"
+				}
+			}
+			return "derived"
+		}
+		return "derived"
+	}
+	printed, bad := 0, ""
+	scan := func(n ast.Node) {
+		ast.Inspect(n, func(m ast.Node) bool {
+			be, ok := m.(*ast.BinaryExpr)
+			if !ok || (be.Op != token.LSS && be.Op != token.GTR && be.Op != token.LEQ && be.Op != token.GEQ) {
+				return true
+			}
+			tv, ok := info.Types[be.X]
+			if !ok {
+				return true
+			}
+			if b, ok := tv.Type.Underlying().(*types.Basic); !ok || b.Info()&types.IsString == 0 {
+				return true
+			}
+			kx, ky := kind(be.X, 0), kind(be.Y, 0)
+			switch {
+			case kx == "printed" && ky == "printed":
+				printed++
+			case kx == "type" && ky == "type":
+			default:
+				bad = "the entries are ordered by comparing " + exprStr(be.X) + " with " + exprStr(be.Y) + ", strings that are not the printed forms of the two keys themselves: a string put together from the printed form and something else orders \"1\" after \"10\" (\"1:…\" > \"10:…\"), so a hash no longer iterates, lists its keys or prints in the order of its keys"
+			}
+			return true
+		})
+	}
+	scan(body)
+	for _, h := range helpers {
+		collect(h)
+		scan(h)
+	}
+	if bad != "" {
+		return bad
+	}
+	if printed == 0 {
+		return "no comparison of the printed forms (Inspect()) of the two keys decides the order of the entries"
+	}
+	return ""
 }
 
 // ---------------------------------------------------------------------------
@@ -1943,4 +2090,196 @@ func listReadsIdentityOnly(p *Program, t types.Type, depth int) bool {
 		}
 	}
 	return n > 0
+}
+
+// functionsHandedBack: v is (a result of) a static call of a module function
+// whose every return puts a function literal of the module, or nil, in that
+// place; the literals.
+func functionsHandedBack(v ssa.Value) ([]*ssa.Function, bool) {
+	var out []*ssa.Function
+	os := origins(v)
+	if len(os) == 0 {
+		return nil, false
+	}
+	for _, o := range os {
+		var cl *ssa.Call
+		idx := 0
+		switch x := o.(type) {
+		case *ssa.Extract:
+			cl, _ = x.Tuple.(*ssa.Call)
+			idx = x.Index
+		case *ssa.Call:
+			cl = x
+		}
+		if cl == nil {
+			return nil, false
+		}
+		h := cl.Call.StaticCallee()
+		if h == nil || fnPkg(h) == nil || !IsLibPath(fnPkg(h).Pkg.Path()) || len(h.Blocks) == 0 {
+			return nil, false
+		}
+		for _, b := range h.Blocks {
+			ret, ok := terminator(b).(*ssa.Return)
+			if !ok || idx >= len(ret.Results) {
+				continue
+			}
+			rv := returnOperand(ret, idx)
+			if c, ok := rv.(*ssa.Const); ok && c.IsNil() {
+				continue
+			}
+			mc, ok := rv.(*ssa.MakeClosure)
+			if !ok {
+				return nil, false
+			}
+			f, ok := mc.Fn.(*ssa.Function)
+			if !ok || fnPkg(f) == nil || !IsLibPath(fnPkg(f).Pkg.Path()) {
+				return nil, false
+			}
+			out = append(out, f)
+		}
+	}
+	return out, len(out) > 0
+}
+
+// selfGuardedObject: see ruleGlobals.
+func selfGuardedObject(p *Program, g *ssa.Global, fns []*ssa.Function) (string, bool) {
+	st, ok := deref(g.Type()).Underlying().(*types.Struct)
+	if !ok {
+		return "", false
+	}
+	mutexField := -1
+	for i := 0; i < st.NumFields(); i++ {
+		if isStdNamed(st.Field(i).Type(), "sync", "Mutex") || isStdNamed(st.Field(i).Type(), "sync", "RWMutex") {
+			mutexField = i
+		}
+	}
+	if mutexField < 0 {
+		return "", false
+	}
+	named := deref(g.Type())
+	methods := map[*ssa.Function]bool{}
+	uses := 0
+	for _, fn := range fns {
+		if isInitFn(fn) {
+			continue
+		}
+		for _, b := range fn.Blocks {
+			for _, ins := range b.Instrs {
+				for _, op := range ins.Operands(nil) {
+					if op == nil || *op != ssa.Value(g) {
+						continue
+					}
+					uses++
+					cc := callOf(ins)
+					if cc == nil || cc.StaticCallee() == nil || len(cc.Args) == 0 || cc.Args[0] != ssa.Value(g) || cc.StaticCallee().Signature.Recv() == nil {
+						return "", false
+					}
+					for i, a := range cc.Args {
+						if i > 0 && a == ssa.Value(g) {
+							return "", false
+						}
+					}
+					if !types.Identical(deref(cc.StaticCallee().Signature.Recv().Type()), named) {
+						return "", false
+					}
+					methods[cc.StaticCallee()] = true
+				}
+			}
+		}
+	}
+	if uses == 0 || len(methods) == 0 {
+		return "", false
+	}
+	// methods the methods call on the same receiver count too
+	for changed := true; changed; {
+		changed = false
+		for m := range methods {
+			for _, b := range m.Blocks {
+				for _, ins := range b.Instrs {
+					if cc := callOf(ins); cc != nil && cc.StaticCallee() != nil && len(cc.Args) > 0 && len(m.Params) > 0 && cc.Args[0] == ssa.Value(m.Params[0]) && cc.StaticCallee().Signature.Recv() != nil && !methods[cc.StaticCallee()] && len(cc.StaticCallee().Blocks) > 0 && fnPkg(cc.StaticCallee()) != nil && IsLibPath(fnPkg(cc.StaticCallee()).Pkg.Path()) {
+						methods[cc.StaticCallee()] = true
+						changed = true
+					}
+				}
+			}
+		}
+	}
+	accesses := 0
+	for m := range methods {
+		if len(m.Params) == 0 {
+			return "", false
+		}
+		recv := ssa.Value(m.Params[0])
+		isLock := func(v ssa.Value) bool {
+			fa, ok := v.(*ssa.FieldAddr)
+			return ok && fa.X == recv && fa.Field == mutexField
+		}
+		for _, b := range m.Blocks {
+			for _, ins := range b.Instrs {
+				// the receiver itself must stay in the method
+				switch x := ins.(type) {
+				case *ssa.Store:
+					if x.Val == recv {
+						return "", false
+					}
+				case *ssa.Return:
+					for _, rv := range x.Results {
+						if rv == recv {
+							return "", false
+						}
+					}
+				case *ssa.MakeClosure:
+					for _, bd := range x.Bindings {
+						if bd == recv {
+							return "", false
+						}
+					}
+				}
+				fa, ok := ins.(*ssa.FieldAddr)
+				if !ok || fa.X != recv || fa.Field == mutexField {
+					continue
+				}
+				accesses++
+				if !heldAtBy(fa, isLock) {
+					return "", false
+				}
+				// what the field refers to stays inside: loads are used for
+				// look-ups, updates, len, delete only
+				for _, ref := range liveRefs(fa) {
+					ld, ok := ref.(*ssa.UnOp)
+					if !ok {
+						if st, isSt := ref.(*ssa.Store); isSt && st.Addr == ssa.Value(fa) {
+							if !heldAtBy(st, isLock) {
+								return "", false
+							}
+							continue
+						}
+						return "", false
+					}
+					if !heldAtBy(ld, isLock) {
+						return "", false
+					}
+					for _, r2 := range liveRefs(ld) {
+						switch y := r2.(type) {
+						case *ssa.Lookup, *ssa.MapUpdate, *ssa.IndexAddr, *ssa.Index, *ssa.Range:
+							if in2, ok := r2.(ssa.Instruction); ok && !heldAtBy(in2, isLock) {
+								return "", false
+							}
+						case *ssa.Call:
+							if _, isBuiltin := y.Call.Value.(*ssa.Builtin); !isBuiltin {
+								return "", false
+							}
+						case *ssa.DebugRef:
+						default:
+							return "", false
+						}
+					}
+				}
+			}
+		}
+	}
+	if accesses == 0 {
+		return "", false
+	}
+	return fmt.Sprintf("an object with a mutex of its own: the variable is only the receiver of %d method(s) of its type, which touch its other fields (%d access(es)) only while that mutex is held and keep what they refer to to themselves", len(methods), accesses), true
 }
